@@ -104,6 +104,7 @@ func HttpSentURL(i int) string                 { panic("intrinsic") }
 func HttpSentBody(i int) []byte                { panic("intrinsic") }
 func HttpSentStatus(i int) int                 { panic("intrinsic") }
 func HttpSentHeader(k string) string           { panic("intrinsic") }
+func Atoi(s string) int                        { panic("intrinsic") }
 func HttpReplies() int                         { panic("intrinsic") }
 func HttpCode(i int) int                       { panic("intrinsic") }
 func HttpBody(i int) any                       { panic("intrinsic") }
